@@ -72,7 +72,7 @@ def main():
         "harness/c02.cpp (= c01.cpp: real services, application counters, probe), externals as for C01",
     ]
     c.assumptions += ["0 < service.input_buffer_size", "requests on other connections are represented by the probe issued after each case (sequential, not concurrent)"]
-    scale = 8 if c.tier == "thorough" else 1
+    scale = 40 if c.tier == "thorough" else 1
 
     c.translate("c01.py")
     proved = c.prove(["Cppcms.C02.Props"], OBLIGATIONS, exe="c02_model")
